@@ -121,6 +121,16 @@ type Shape struct {
 	InLoop   bool   `json:"inLoop"`
 }
 
+type Insert struct {
+	Class     string   `json:"class"`
+	Key       string   `json:"key"`
+	Guards    []string `json:"guards"`
+	Rechecked bool     `json:"recheckedUnderWriteLock"`
+	Phase     string   `json:"phase"`
+	Fn        string   `json:"fn"`
+	Pos       string   `json:"pos"`
+}
+
 type Unknown struct {
 	Phase string `json:"phase"`
 	Fn    string `json:"fn"`
@@ -137,6 +147,7 @@ type Out struct {
 	Edges     []Edge    `json:"lockEdges"`
 	Shapes    []Shape   `json:"slotShapes"`
 	Unknowns  []Unknown `json:"unknowns"`
+	Inserts   []Insert  `json:"inserts"`
 	SetupOnly []string  `json:"setupOnly"`
 	Vars      []string  `json:"vars"`
 	CallSites []CallJ   `json:"callSites"`
@@ -206,6 +217,7 @@ type World struct {
 	order    []*Pkg
 	rows     []Row
 	unknowns []Unknown
+	inserts  []Insert
 	edges    []Edge
 	plains   []Plain
 	atomics  map[string]bool // field key
@@ -402,7 +414,7 @@ func (w *World) run() {
 		}
 	}
 	for iter := 0; iter < 12; iter++ {
-		w.rows, w.unknowns, w.edges = nil, nil, nil
+		w.rows, w.unknowns, w.edges, w.inserts = nil, nil, nil, nil
 		w.retMemo, w.retBusy, w.secMemo = map[*FuncInfo][]ref{}, map[*FuncInfo]bool{}, map[*FuncInfo]map[string]int{}
 		w.record = true
 		for _, p := range w.order {
@@ -660,13 +672,16 @@ type state struct {
 	held  map[string]bool
 	alias map[types.Object]ref
 	sec   map[string]int // critical sections entered so far on this path: "mu|R" / "mu|W" (>= loopMark: inside a loop)
-	dead  bool
+	// for every mutex acquired in this function and still held: the map lookups "class|key" performed since its
+	// acquisition on every path (must-set) — the re-check a get-or-create insert needs
+	secReads map[string]map[string]bool
+	dead     bool
 }
 
 const loopMark = 100
 
 func newState() *state {
-	return &state{held: map[string]bool{}, alias: map[types.Object]ref{}, sec: map[string]int{}}
+	return &state{held: map[string]bool{}, alias: map[types.Object]ref{}, sec: map[string]int{}, secReads: map[string]map[string]bool{}}
 }
 
 func maxSec(a, b map[string]int) map[string]int {
@@ -692,6 +707,13 @@ func (s *state) clone() *state {
 	}
 	for k, v := range s.sec {
 		n.sec[k] = v
+	}
+	for k, v := range s.secReads {
+		m := map[string]bool{}
+		for kk := range v {
+			m[kk] = true
+		}
+		n.secReads[k] = m
 	}
 	n.dead = s.dead
 	return n
@@ -720,6 +742,23 @@ func (s *state) join(bs ...*state) {
 		sec = maxSec(sec, b.sec)
 	}
 	s.sec = sec
+	sr := map[string]map[string]bool{}
+	for mu, set := range liveBs[0].secReads {
+		m := map[string]bool{}
+		for k := range set {
+			all := true
+			for _, b := range liveBs[1:] {
+				if !b.secReads[mu][k] {
+					all = false
+				}
+			}
+			if all {
+				m[k] = true
+			}
+		}
+		sr[mu] = m
+	}
+	s.secReads = sr
 	al := map[types.Object]ref{}
 	for _, b := range liveBs {
 		for k, v := range b.alias {
@@ -744,8 +783,35 @@ type an struct {
 	exits  map[string]int // max section counts over the return points seen so far
 	via    string
 	// receiver of the method being analysed, when its type is a struct with a mutex field ("guarded struct")
-	recvObj types.Object
-	recvT   *types.Named
+	recvObj  types.Object
+	recvT    *types.Named
+	noInsert bool
+}
+
+// insert records a map insertion `G[k] = v` (lost-insert rule): `guards` are the mutexes held in write mode here whose
+// critical section either spans the whole function (held on entry) or contains, on every path, a lookup of the same
+// element G[k] — the re-check under the lock.  An insert with no guard that all writers of the class share is a
+// check-then-act across two critical sections (or no check at all) that concurrent callers can interleave.
+func (a *an) insert(st *state, c ref, key string, pos token.Pos) {
+	if !c.ok || a.top || !(a.rec || (a.inline && c.via)) {
+		return
+	}
+	if p := a.w.pkgs[module+c.cls.Pkg]; p == nil || !(p.track || strings.Contains(c.cls.Var, ".")) {
+		return
+	}
+	guards := []string{}
+	k := c.cls.String() + "|" + key
+	for _, h := range heldList(st.held, c.cls) {
+		if !h.W {
+			continue
+		}
+		if set, acquiredHere := st.secReads[h.Mu]; acquiredHere && !set[k] {
+			continue
+		}
+		guards = append(guards, h.Mu)
+	}
+	a.w.inserts = append(a.w.inserts, Insert{Class: c.cls.String(), Key: key, Guards: guards, Rechecked: len(guards) > 0,
+		Phase: a.phase(), Fn: a.fn.key, Pos: a.w.pos(pos)})
 }
 
 // guardFields: names of the fields of struct type t whose type is (a pointer to / a wrapper embedding) a sync mutex
@@ -1145,6 +1211,12 @@ func (a *an) refOf(st *state, e ast.Expr) ref {
 		a.refOf(st, x.Index)
 		if c.ok {
 			a.access(st, c, false, x.Pos())
+			if _, isMap := a.typeOf(x.X).Underlying().(*types.Map); isMap {
+				k := c.cls.String() + "|" + types.ExprString(x.Index)
+				for mu := range st.secReads {
+					st.secReads[mu][k] = true
+				}
+			}
 			if isContainer(a.typeOf(x)) {
 				c.cls.Depth++
 				return c
@@ -1354,6 +1426,7 @@ func (a *an) acquire(st *state, mu string, wmode bool, pos token.Pos) {
 		a.fn.direct = append(a.fn.direct, acq{mu: mu, w: wmode, inLoop: a.loop > 0, pos: a.w.pos(pos)})
 	}
 	st.held[mu] = wmode
+	st.secReads[mu] = map[string]bool{}
 	if wmode {
 		a.addSec(st, mu+"|W", 1)
 	} else {
@@ -1373,6 +1446,7 @@ func (a *an) release(st *state, mu string, pos token.Pos) {
 		return
 	}
 	delete(st.held, mu)
+	delete(st.secReads, mu)
 }
 
 func (a *an) calleeOf(ce *ast.CallExpr) *types.Func {
@@ -1768,6 +1842,9 @@ func (a *an) assignTo(st *state, lhs ast.Expr, r ref, rhs ast.Expr, define bool)
 		a.refOf(st, x.Index)
 		if c.ok {
 			a.access(st, c, true, x.Pos())
+			if _, isMap := a.typeOf(x.X).Underlying().(*types.Map); isMap && !a.noInsert {
+				a.insert(st, c, types.ExprString(x.Index), x.Pos())
+			}
 			inner := c.cls
 			inner.Depth++
 			a.publish(st, rhs, r, inner, lhs.Pos())
@@ -1853,7 +1930,9 @@ func (a *an) stmt(st *state, s ast.Stmt) {
 			r := a.refOf(st, x.Lhs[0])
 			_ = r
 			a.refOf(st, x.Rhs[0])
+			a.noInsert = true // read-modify-write of one element inside one statement
 			a.assignTo(st, x.Lhs[0], ref{}, nil, false)
+			a.noInsert = false
 			return
 		}
 		if len(x.Lhs) == len(x.Rhs) {
@@ -1883,7 +1962,9 @@ func (a *an) stmt(st *state, s ast.Stmt) {
 		}
 	case *ast.IncDecStmt:
 		a.refOf(st, x.X)
+		a.noInsert = true
 		a.assignTo(st, x.X, ref{}, nil, false)
+		a.noInsert = false
 	case *ast.DeclStmt:
 		gd, ok := x.Decl.(*ast.GenDecl)
 		if !ok {
@@ -2447,6 +2528,17 @@ func (w *World) output() *Out {
 		us[k] = true
 		o.Unknowns = append(o.Unknowns, u)
 	}
+	o.Inserts = []Insert{}
+	is := map[string]bool{}
+	for _, r := range w.inserts {
+		k := fmt.Sprintf("%s|%s|%v|%s|%s", r.Class, r.Pos, r.Guards, r.Phase, r.Fn)
+		if is[k] {
+			continue
+		}
+		is[k] = true
+		o.Inserts = append(o.Inserts, r)
+	}
+	sort.SliceStable(o.Inserts, func(i, j int) bool { return o.Inserts[i].Class+o.Inserts[i].Pos < o.Inserts[j].Class+o.Inserts[j].Pos })
 	for k := range setupOnly {
 		o.SetupOnly = append(o.SetupOnly, k)
 	}
@@ -2521,6 +2613,11 @@ func leanText(o *Out) string {
 	for _, s := range o.Shapes {
 		mu(s.Mu)
 	}
+	for _, r := range o.Inserts {
+		for _, g := range r.Guards {
+			mu(g)
+		}
+	}
 	defer func() { o.MutexIDs = muNames }()
 	b.WriteString("def classNames : List (Nat × String) := [\n")
 	for i, n := range clsNames {
@@ -2560,6 +2657,18 @@ func leanText(o *Out) string {
 	b.WriteString("]\n\ndef slotShapes : List SlotShape := [\n")
 	for i, s := range o.Shapes {
 		fmt.Fprintf(&b, "  ⟨%d, %s, %d, %d, %s⟩%s\n", i, lstr(s.Slot), mu(s.Mu), s.Sections, lbool(s.InLoop), comma(i, len(o.Shapes)))
+	}
+	b.WriteString("]\n\ndef inserts : List Insert := [\n")
+	for i, r := range o.Inserts {
+		var gs []string
+		for _, g := range r.Guards {
+			gs = append(gs, fmt.Sprint(mu(g)))
+		}
+		cid, ok := clsID[r.Class]
+		if !ok {
+			cid = 1 << 30
+		}
+		fmt.Fprintf(&b, "  ⟨%d, %d, [%s], %s, .%s, %s, %s, %s⟩%s\n", i, cid, strings.Join(gs, ", "), lbool(r.Rechecked), r.Phase, lstr(r.Fn), lstr(r.Pos), lstr(r.Key), comma(i, len(o.Inserts)))
 	}
 	b.WriteString("]\n\ndef unknowns : List Unknown := [\n")
 	for i, u := range o.Unknowns {
